@@ -55,6 +55,9 @@ def fresh_bool(prefix="b"):
     return z3.Const(fresh_name(prefix), Bool)
 
 
+NEW_ARRAYS = []      # (field, array const) created since last drain: array-level facts attach to them
+
+
 class Heap:
     """Map field name -> z3 array.  Fields not present are, by construction,
     unchanged since the last whole-heap havoc (epoch) and are created lazily
@@ -72,6 +75,7 @@ class Heap:
         if a is None:
             a = z3.Const("%s@%d" % (name, self.epoch), field_sort(name))
             self.arr[name] = a
+            NEW_ARRAYS.append((name, a))
         return a
 
     def set(self, name, a):
@@ -89,6 +93,7 @@ class Heap:
     def havoc_fields(self, names):
         for n in names:
             self.arr[n] = z3.Const(fresh_name(n + "@h"), field_sort(n))
+            NEW_ARRAYS.append((n, self.arr[n]))
 
     def same_as(self, other):
         """z3 formula: this heap equals `other` on every field either has touched."""
@@ -123,6 +128,7 @@ class State:
         self.trace = []       # human-readable path description
         self.exc_stack = []   # exceptions being handled (for bare raise)
         self.dead = False
+        self.fresh = []       # [obj, epoch, set(fields already closed)] allocated on this path
 
     def copy(self):
         s = State.__new__(State)
@@ -134,6 +140,7 @@ class State:
         s.trace = list(self.trace)
         s.exc_stack = list(self.exc_stack)
         s.dead = self.dead
+        s.fresh = [[o, e, set(c)] for o, e, c in self.fresh]
         return s
 
     def assume(self, f, note=None):
